@@ -53,6 +53,10 @@ def eval_pred(s, env):
     if k == "bool":
         vals = [eval_pred(x, env) for x in s[2]]
         return all(vals) if s[1] == "and" else any(vals)
+    if k == "call" and s[1] == ("glob", "bool") and len(s[2]) == 1 and not s[3]:
+        return bool(eval_pred(s[2][0], env))
+    if k == "ife":
+        return eval_pred(s[2], env) if eval_pred(s[1], env) else eval_pred(s[3], env)
     if k == "bin":
         a, b = eval_pred(s[2], env), eval_pred(s[3], env)
         return {"&": lambda: a & b, "|": lambda: a | b, "+": lambda: a + b, "-": lambda: a - b, ">>": lambda: a >> b,
